@@ -264,3 +264,73 @@ def double_hashing_rules(ctx, rule="R08-double-hashing"):
             okf = rng[0] == "adt" and rng[1] == "std::ops::Range" and dict(rng[3]).get("start") == const(0) and dict(rng[3]).get("end", ("x",))[:2] == ("param", 2) \
                 and e[0] == "op" and e[1] == "Rem" and e[2][1][:2] == ("param", 1)
         ctx.check(okf, rule, sf.key, sf, "f has k entries, each reduced modulo m", "setup_f builds %s" % fmt(r)[:200])
+
+
+# ---- join stores and element-wise resets ---------------------------------------------------------------
+
+def join_store(ctx, fn, field):
+    """How `fn` updates one cell of self.<field> with a lattice join. Returns a dict
+        {"form": "max" | "guarded-max", "new": term, "old": term, "idx": term, "span": span}
+    for  cell = max(cell, new)  on every path, or for  if cell < new { cell = new }  (store skipped exactly when it would
+    be a no-op); returns {"form": None, "why": text} otherwise."""
+    from ..paths import PathEnumerator
+    from ..guards import fv
+    from ..terms import mk, fmt
+    selfp = ("param", 1, "self")
+    pe = PathEnumerator(fn, ctx.prog, ctx.summ)
+    sites = {}
+    per_path = []
+    for p in pe.paths():
+        if p.exit_kind != "return":
+            continue
+        st = [e for e in p.events if e["kind"] == "write" and self_field(e) == field and e["how"] == "store"]
+        idx = [e["args"][1] for e in p.events if e["kind"] == "write" and self_field(e) == field and e["how"] == "borrow" and e.get("name") == "index_mut"]
+        facts = {repr(c): t for c, t in pe.path_facts(p)}
+        per_path.append((st, idx, facts))
+        for e in st:
+            sites[(e["bb"], e["idx"])] = e
+    if len(sites) != 1:
+        return {"form": None, "why": "%d store sites to %s" % (len(sites), field)}
+    e = list(sites.values())[0]
+    v = e["value"]
+    idxs = {repr(i) for _, ix, _ in per_path for i in ix}
+    if len(idxs) != 1:
+        return {"form": None, "why": "store index is not unique"}
+    idx = [i for _, ix, _ in per_path for i in ix][0]
+    old = ("index", ("field", selfp, field), idx)
+    if v[0] == "op" and v[1] == "max" and old in v[2] and len(v[2]) == 2:
+        new = [x for x in v[2] if x != old][0]
+        if all(len(st) == 1 for st, _, _ in per_path):
+            return {"form": "max", "new": new, "old": old, "idx": idx, "span": e["span"]}
+        return {"form": None, "why": "the max-store is skipped on some path (a conditional update makes the cell depend on the order of updates)", "span": e["span"]}
+    # guarded form
+    new = v
+    guard = mk("Lt", old, new)
+    ok = True
+    for st, _, facts in per_path:
+        g = fv(facts, guard)
+        if st and g is not True:
+            ok = False
+        if not st and g is not False:
+            ok = False
+    if ok:
+        return {"form": "guarded-max", "new": new, "old": old, "idx": idx, "span": e["span"]}
+    return {"form": None, "why": "cell is overwritten with %s without `old < new` deciding exactly when" % fmt(v)[:120], "span": e["span"]}
+
+
+def elementwise_reset(ctx, fn, field):
+    """True iff fn zero-fills self.<field> in place: a loop over self.<field>.iter_mut() that runs to exhaustion and stores the
+    constant 0 / zero() into every element"""
+    from ..terms import TermBuilder, const
+    heads = fn.loop_heads()
+    if len(heads) != 1 or not loop_exits_only_on_exhaustion(fn, heads[0]):
+        return False
+    ws = [w for w in all_writes(ctx, fn) if self_field(w) == field and w["how"] == "store" and "[]" in w["path"]]
+    if len(ws) != 1:
+        return False
+    v = ws[0]["value"]
+    zero = v == const(0) or (v[0] == "call" and v[1].endswith("zero") and not v[2]) or v == const(False)
+    body = fn.natural_loop(heads[0])
+    every_iter = all(fn.dominates(ws[0]["bb"], b) for b, h in fn.back_edges())
+    its = [w for w in all_writes(ctx, fn) if self_field(w) == field and w["how"] == "borrow" and w.get("name") == "iter_mut"]
+    return bool(zero and ws[0]["bb"] in body and every_iter and its)
